@@ -146,11 +146,42 @@ impl<'tcx, 'b> Cx<'tcx, 'b> {
               Some(b) => format!(",\"bytes\":[{}]", b.iter().map(|x| x.to_string()).collect::<Vec<_>>().join(",")),
               None => String::new(),
             };
+            // layout of a struct-typed constant (e.g. the promoted `&(a..=b)` of a `contains` call), so that the
+            // bytes can be read field by field
+            let mut peeled = ty;
+            while let ty::Ref(_, inner, _) = peeled.kind() {
+              peeled = *inner;
+            }
+            let mut sj = String::new();
+            if let ty::Adt(adt, args) = peeled.kind() {
+              if adt.is_struct() {
+                if let Ok(layout) = self.tcx.layout_of(self.env.as_query_input(peeled)) {
+                  let mut fs: Vec<String> = Vec::new();
+                  for (i, f) in adt.non_enum_variant().fields.iter().enumerate() {
+                    let fty = f.ty(self.tcx, args);
+                    let fsize = self.tcx.layout_of(self.env.as_query_input(fty)).map(|l| l.size.bytes() as i64).unwrap_or(-1);
+                    fs.push(format!(
+                      "{{\"name\":{},\"offset\":{},\"size\":{},\"ty\":{}}}",
+                      esc(&f.name.to_string()),
+                      layout.fields.offset(i).bytes(),
+                      fsize,
+                      esc(&ty_str(fty))
+                    ));
+                  }
+                  sj = format!(
+                    ",\"struct\":{{\"name\":{},\"fields\":[{}]}}",
+                    esc(&self.tcx.def_path_str(adt.did())),
+                    fs.join(",")
+                  );
+                }
+              }
+            }
             format!(
-              "{{\"k\":\"constx\",\"ty\":{},\"repr\":{}{}}}",
+              "{{\"k\":\"constx\",\"ty\":{},\"repr\":{}{}{}}}",
               esc(&ty_str(ty)),
               esc(&format!("{:?}", c.const_)),
-              bj
+              bj,
+              sj
             )
           }
         }
